@@ -413,6 +413,44 @@ pub fn run(ctx: &mut RunCtx) -> Result<(), Violation> {
             return Err(Violation::new("I-durable", format!("an unfaulted {} is rejected by its decoder", o.name())));
         }
     }
+    // hand-built hollow objects: headers that announce a lot and carry nothing.  A prover whose
+    // prover-key section consists of n, the size of an evaluations block, an empty first polynomial
+    // and the *canonical* header of the 8n evaluation domain - and then ends.  Nothing about it is
+    // inconsistent until the data is missed, so a decoder that sizes a buffer from the domain header
+    // allocates 256 n bytes for a 244-byte input.
+    for _ in 0..3 {
+        let k = 10 + f.below(14);
+        let n = 1u64 << k;
+        let dom = 8 * n;
+        if let Some((_, omega)) = crate::rm_verify::domain_for(dom) {
+            use dusk_bytes::Serializable;
+            let inv = |x: BlsScalar| Option::<BlsScalar>::from(x.invert()).unwrap_or(BlsScalar::zero());
+            let mut pk = Vec::new();
+            pk.extend_from_slice(&n.to_le_bytes());
+            pk.extend_from_slice(&(dom * 32 + 172).to_le_bytes());
+            pk.extend_from_slice(&0u64.to_le_bytes());
+            pk.extend_from_slice(&dom.to_le_bytes());
+            pk.extend_from_slice(&((k + 3) as u32).to_le_bytes());
+            for x in [BlsScalar::from(dom), inv(BlsScalar::from(dom)), omega, inv(omega), inv(dusk_bls12_381::GENERATOR)] {
+                pk.extend_from_slice(&x.to_bytes());
+            }
+            let extra = f.usize(3) * 32;
+            pk.extend(std::iter::repeat(0u8).take(extra));
+            let mut bytes = Vec::new();
+            for v in [0u64, pk.len() as u64, 0, 0, n, n - f.below(2)] {
+                bytes.extend_from_slice(&v.to_be_bytes());
+            }
+            bytes.extend_from_slice(&pk);
+            let what = format!("hollow prover: n = 2^{}, canonical 2^{} domain header, {} bytes of evaluations", k, k + 3, extra);
+            let env = ctx.env(&mut s);
+            progress_case(ctx.prop, ctx.run, 9000 + k as usize, &what);
+            ctx.st.fault("disk.hollow_evaluations_section");
+            ctx.note("object", J::s("prover_key"));
+            ctx.note("fault", J::s(what.clone()));
+            decode_case(ctx, &fx, Obj::Prover, &bytes, &what, &env)?;
+            ctx.st.eval(digest(&bytes) ^ 0x4011, true);
+        }
+    }
     let n_cases = if ctx.thorough { 160 } else { 80 };
     ctx.hints.n_faults = n_cases;
     let keep = if ctx.spec.get("keepf").is_some() { Some(ctx.spec.list("keepf")) } else { None };
